@@ -74,9 +74,10 @@ def check_child_table_access(ctx, fx, RULE="R16.1"):
         if wf is not None and w not in touch and any((t.get("resolved") or t.get("callee")) in WRITERS for _, t in ctx.body(fx, wf).normal_calls()):
             delegating.add(w)
     ctx.floor(RULE, "functions touching Context.children", len(touch) + len(delegating), 3)
+    writer_helpers = graph.private_helpers(fx, set(WRITERS))  # private accessors only the writers use
     for fn_, locs in sorted(touch.items()):
         root = fx.fn(fn_).get("root", fn_)
-        ctx.require(root in WRITERS, RULE, "access:" + fn_, "the child table is accessed outside add_child / register_child / send_to_children", fn=fn_, site=locs[0], detail={"sites": len(locs)})
+        ctx.require(root in WRITERS or root in writer_helpers, RULE, "access:" + fn_, "the child table is accessed outside add_child / register_child / send_to_children", fn=fn_, site=locs[0], detail={"sites": len(locs)})
     ctx.require(len(ctors) == 1, RULE, "context-constructors", "Context is constructed in %s (expected exactly the environment's constructor)" % sorted(ctors), detail=sorted(ctors))
     for w in sorted(WRITERS):
         if not ctx.require(fx.fn(w) is not None, RULE, "exists:" + w, "%s not found" % w):
